@@ -134,13 +134,24 @@ def c16_case(draw):
     case['user'] = user
     case['truncate'] = draw(st.one_of(st.none(), st.integers(0, 60)))
     case['corrupt'] = draw(st.sampled_from([None, None, 'amount',
-                                            'after_end', 'discard']))
+                                            'after_end', 'discard',
+                                            'edits', 'edits']))
+    if case['corrupt'] == 'edits':
+        # generated edits of the action list (delete / duplicate / swap a
+        # line, relabel the player, change an amount, drop a board card,
+        # append a line): the result is either still a hand - then every
+        # line must be applied, in order - or it must be reported
+        case['edits'] = draw(st.lists(
+            st.tuples(st.sampled_from(['del', 'dup', 'swap', 'player',
+                                       'amount', 'cut_cards', 'append']),
+                      st.integers(0, 200), st.integers(0, 10 ** 4)),
+            min_size=1, max_size=3))
     return case
 
 
 def budget(tier):
     if tier == 'quick':
-        return dict(examples=2400, wall=100)
+        return dict(examples=4000, wall=100)
     return dict(examples=60000, wall=1500)
 
 
@@ -338,6 +349,56 @@ def check(case, stats):
                                 hc.actions[j] = f'{w[0]} sd {alien}'
                                 applied = True
                                 break
+                elif how == 'edits':
+                    acts = list(hc.actions)
+                    nplayers = len(h2.starting_stacks)
+                    for op, i, v in case.get('edits') or []:
+                        if not acts:
+                            break
+                        i %= len(acts)
+                        w = acts[i].split()
+                        if op == 'del':
+                            del acts[i]
+                        elif op == 'dup':
+                            acts.insert(i, acts[i])
+                        elif op == 'swap' and i + 1 < len(acts):
+                            acts[i], acts[i + 1] = acts[i + 1], acts[i]
+                        elif op == 'player' and w[0].startswith('p'):
+                            w[0] = f'p{v % nplayers + 1}'
+                            acts[i] = ' '.join(w)
+                        elif op == 'amount' and len(w) >= 3 and w[1] == 'cbr':
+                            w[2] = str(v)
+                            acts[i] = ' '.join(w)
+                        elif op == 'cut_cards' and w[:2] == ['d', 'db'] \
+                                and len(w[2]) > 2:
+                            w[2] = w[2][:-2]
+                            acts[i] = ' '.join(w)
+                        elif op == 'append':
+                            acts.append(['p1 f', 'p2 cc', 'd db As',
+                                         'p1 sm', 'd dh p1 AsKs'][v % 5])
+                    if acts != list(hc.actions):
+                        hc.actions[:] = acts
+                        stats.count('corrupted:edits')
+                        try:
+                            done = [a for _, a in hc.state_actions
+                                    if a is not None]
+                            raised = False
+                        except Exception as e:  # noqa: BLE001
+                            if not _is_engine_exception(e):
+                                raise
+                            raised = True
+                            stats.count('edited_history:reported')
+                        if not raised:
+                            stats.count('edited_history:still_a_hand')
+                            if done != acts:
+                                out.append(V(
+                                    ID, 'edited_history_silently_truncated',
+                                    '', f'{len(done)} of {len(acts)} action'
+                                    f' lines were applied without an error;'
+                                    f' first difference at'
+                                    f' {next((k for k, (x, y) in enumerate(zip(done, acts)) if x != y), len(done))};'
+                                    f' actions {acts[-8:]}'))
+                                return out
                 if applied:
                     stats.count('corrupted:' + how)
                     try:
